@@ -94,56 +94,62 @@ def run(ck, repo: Repo, tier: str):
     nf.expand_squares = False
     res = Resolver(repo)
     for q, (rule, spec) in FORMULAS.items():
-        check_formula(ck, repo, nf, q, rule, spec)
+        ck.guard(check_formula, ck, repo, nf, q, rule, spec)
     ck.floor("objective-formulas", len(FORMULAS), 6)
 
-    # ---- MR.Q policy loss (tuple result, scale_output helper) ---------------------------------------------
-    q = "rl_blox.algorithm.mrq.mrq_policy_loss"
-    fn = repo.func(q)
-    env = _env(fn)
-    got = nf.return_poly(q, env)
-    ck.need(got.elems is not None, f"{q}: result is not a tuple")
-    want = nf.poly(parse_expr("-q(encoder.encode_zsa(zs, policy.scale_output(policy.policy_net(zs)))).mean() + activation_weight * jnp.square(policy.policy_net(zs)).mean()"),
-                   Scope(None, fn._module, env, q), None)
-    ok = got.elems[0] == want
-    ck.ob("R3-dpg", q, "objective-identity", ok, got.elems[0].canon()[:170], "" if ok else f"differs from -mean(q(zsa(zs, pi(zs)))) + w*mean(pre-activation^2) by `{(got.elems[0] - want).canon()[:160]}`", loc(fn._module, fn))
+    def _section_1():
+        # ---- MR.Q policy loss (tuple result, scale_output helper) ---------------------------------------------
+        q = "rl_blox.algorithm.mrq.mrq_policy_loss"
+        fn = repo.func(q)
+        env = _env(fn)
+        got = nf.return_poly(q, env)
+        ck.need(got.elems is not None, f"{q}: result is not a tuple")
+        want = nf.poly(parse_expr("-q(encoder.encode_zsa(zs, policy.scale_output(policy.policy_net(zs)))).mean() + activation_weight * jnp.square(policy.policy_net(zs)).mean()"),
+                       Scope(None, fn._module, env, q), None)
+        ok = got.elems[0] == want
+        ck.ob("R3-dpg", q, "objective-identity", ok, got.elems[0].canon()[:170], "" if ok else f"differs from -mean(q(zsa(zs, pi(zs)))) + w*mean(pre-activation^2) by `{(got.elems[0] - want).canon()[:160]}`", loc(fn._module, fn))
+    ck.guard(_section_1)
 
-    # ---- EntropyCoefficient ------------------------------------------------------------------------------------
-    m = repo.method("rl_blox.algorithm.sac.EntropyCoefficient", "__call__", inherited=False)
-    ck.need(m is not None, "EntropyCoefficient.__call__ not found")
-    rets = [n for n in ast.walk(m[1]) if isinstance(n, ast.Return)]
-    txt = ast.unparse(rets[0].value) if rets else ""
-    ok = txt in ("jnp.exp(self.log_alpha.value)", "jnp.exp(self.log_alpha)")
-    ck.ob("R4-sac", "rl_blox.algorithm.sac.EntropyCoefficient.__call__", "alpha-is-exp-log-alpha", ok, f"return {txt}", "" if ok else "alpha must be exp(log_alpha) (positive, trained in log space)", loc(m[1]._module, m[1]))
+    def _section_2():
+        # ---- EntropyCoefficient ------------------------------------------------------------------------------------
+        m = repo.method("rl_blox.algorithm.sac.EntropyCoefficient", "__call__", inherited=False)
+        ck.need(m is not None, "EntropyCoefficient.__call__ not found")
+        rets = [n for n in ast.walk(m[1]) if isinstance(n, ast.Return)]
+        txt = ast.unparse(rets[0].value) if rets else ""
+        ok = txt in ("jnp.exp(self.log_alpha.value)", "jnp.exp(self.log_alpha)")
+        ck.ob("R4-sac", "rl_blox.algorithm.sac.EntropyCoefficient.__call__", "alpha-is-exp-log-alpha", ok, f"return {txt}", "" if ok else "alpha must be exp(log_alpha) (positive, trained in log space)", loc(m[1]._module, m[1]))
+    ck.guard(_section_2)
 
-    # ---- differentiated argument is the actor ---------------------------------------------------------------------
-    for uq, (lq, actor_params) in ACTOR_SITES.items():
-        fn = repo.func(uq)
-        mi = fn._module
-        sites = [s for s in grad_sites(repo, fn, mi)]
-        ck.need(len(sites) == 1, f"{uq}: expected one gradient site, found {len(sites)}")
-        s = sites[0]
-        got_loss = repo.resolve_expr(mi, s["loss"]) if isinstance(s["loss"], (ast.Name, ast.Attribute)) else None
-        okl = got_loss == lq
-        rule = FORMULAS.get(lq, ("R3-dpg",))[0]
-        ck.ob(rule, uq, "differentiates-documented-loss", okl, f"value_and_grad({short(s['loss'])})", "" if okl else f"documented objective is {lq.rsplit('.', 1)[1]}", loc(mi, s["app"]))
-        if not okl:
-            continue
-        lp = positional_params(repo.func(lq))
-        diffp = [lp[k] if k < len(lp) else None for k in s["argnums"]]
-        ok = diffp == actor_params
-        ck.ob(rule, uq, "gradient-reaches-actor-only", ok, f"argnums={s['argnums']} -> parameters {diffp} of {lq.rsplit('.', 1)[1]}",
-              "" if ok else f"the objective must be differentiated with respect to {actor_params} only", loc(mi, s["app"]))
-        # the remaining arguments are bound by position to the loss parameters: role transfer
-        b = {lp[i]: a for i, a in enumerate(s["app"].args) if i < len(lp)}
-        for pname, a in b.items():
-            # arguments must be plain values of the routine (names / attributes / calls evaluated outside the differentiated function)
-            pass
-        _role_transfer(ck, repo, nf, uq, fn, lq, b, s, rule)
+    def _section_3():
+        # ---- differentiated argument is the actor ---------------------------------------------------------------------
+        for uq, (lq, actor_params) in ACTOR_SITES.items():
+            fn = repo.func(uq)
+            mi = fn._module
+            sites = [s for s in grad_sites(repo, fn, mi)]
+            ck.need(len(sites) == 1, f"{uq}: expected one gradient site, found {len(sites)}")
+            s = sites[0]
+            got_loss = repo.resolve_expr(mi, s["loss"]) if isinstance(s["loss"], (ast.Name, ast.Attribute)) else None
+            okl = got_loss == lq
+            rule = FORMULAS.get(lq, ("R3-dpg",))[0]
+            ck.ob(rule, uq, "differentiates-documented-loss", okl, f"value_and_grad({short(s['loss'])})", "" if okl else f"documented objective is {lq.rsplit('.', 1)[1]}", loc(mi, s["app"]))
+            if not okl:
+                continue
+            lp = positional_params(repo.func(lq))
+            diffp = [lp[k] if k < len(lp) else None for k in s["argnums"]]
+            ok = diffp == actor_params
+            ck.ob(rule, uq, "gradient-reaches-actor-only", ok, f"argnums={s['argnums']} -> parameters {diffp} of {lq.rsplit('.', 1)[1]}",
+                  "" if ok else f"the objective must be differentiated with respect to {actor_params} only", loc(mi, s["app"]))
+            # the remaining arguments are bound by position to the loss parameters: role transfer
+            b = {lp[i]: a for i, a in enumerate(s["app"].args) if i < len(lp)}
+            for pname, a in b.items():
+                # arguments must be plain values of the routine (names / attributes / calls evaluated outside the differentiated function)
+                pass
+            _role_transfer(ck, repo, nf, uq, fn, lq, b, s, rule)
 
-    _pg_weights(ck, repo, nf)
-    _ppo_update(ck, repo, nf)
-    _value_shapes(ck, repo)
+        _pg_weights(ck, repo, nf)
+        _ppo_update(ck, repo, nf)
+        _value_shapes(ck, repo)
+    ck.guard(_section_3)
 
 
 def _value_shapes(ck, repo):
